@@ -19,7 +19,7 @@ fn main() {
                 println!("{}", p);
             }
         }
-        "run" => {
+        "run" | "run-worker" => {
             if args.len() < 3 {
                 usage();
             }
@@ -41,6 +41,9 @@ fn main() {
                 i += 1;
             }
             let seed = std::env::var("VERIF_SEED").ok().and_then(|s| s.trim().parse::<u64>().ok()).unwrap_or(1);
+            if args[1] == "run" && std::env::var("VERIF_NO_SUPERVISOR").is_err() {
+                std::process::exit(supervise(&prop, tier, seed));
+            }
             let ctx = Ctx::new(&prop, tier, seed);
             let code = props::run(&ctx);
             std::process::exit(code);
